@@ -85,7 +85,12 @@ def obs_duration(x):
     """(years, months, rest_us) of a pendulum Duration or of the compiled parser's Duration record."""
     if isinstance(x, dt_.timedelta):
         y, mo = x.years, x.months
-        return ("duration", y, mo, obs.td_us(x) - (y * 365 + mo * 30) * 86400 * US)
+        rest = obs.td_us(x) - (y * 365 + mo * 30) * 86400 * US
+        # the components the value reports must be a breakdown of that same rest
+        comp = (((x.weeks * 7 + x.remaining_days) * 24 + x.hours) * 60 + x.minutes) * 60 * US + x.remaining_seconds * US + x.microseconds
+        if comp != rest:
+            return ("duration-whose-components-disagree-with-its-value", y, mo, rest, comp)
+        return ("duration", y, mo, rest)
     if hasattr(x, "remaining_seconds") and hasattr(x, "weeks"):
         rest = (((x.weeks * 7 + x.days) * 24 + x.hours) * 60 + x.minutes) * 60 * US + x.seconds * US + x.microseconds
         return ("duration", x.years, x.months, rest)
